@@ -22,15 +22,20 @@ void snap () {
   }
   VL (t);
 }
+mapping scripts = ([]);
+int nest = 0;
+void set_script (string key, string ops) { if (ops == "-") map_delete (scripts, key); else scripts[key] = ops; }
+string script (string key) { return scripts[key]; }
+void enter () { nest++; }
+void leave () { nest--; }
+int depth () { return nest; }
 void act (string oid, string op) {
   object o;
   mixed e;
   o = get (oid);
-  VL ("do " + oid + " " + op);
-  if (!o) VL ("r nobj");
-  else {
-    e = catch (o->do_op (op));
-    if (e) VL ("r uncaught");
-  }
-  snap ();
+  nest = 0;
+  if (!o) { VL ("do " + oid + " " + op); VL ("r nobj"); snap (); return; }
+  e = catch (o->run_op (op));
+  if (e) { VL ("r uncaught"); snap (); }
+  else if (!o) snap ();
 }
